@@ -109,9 +109,13 @@ def build_stack(case: dict):
     )
 
 
-def nearest(p, centres: Dict[Tuple[int, int, int], List[float]], tol: float) -> Optional[Tuple[int, int, int]]:
+def nearest(p, centres: Dict[Tuple[int, int, int], List[float]], tol: float, levels=None) -> Optional[Tuple[int, int, int]]:
+    """the cell whose expected centre is at p; `levels` restricts the level (a bottom face is never on the last level, a
+    top face never on level 0: in a stack revolved by a full turn these two coincide)"""
     best, bd = None, 1e99
     for key, c in centres.items():
+        if levels is not None and key[2] not in levels:
+            continue
         d = dist(p, c)
         if d < bd:
             best, bd = key, d
@@ -222,7 +226,15 @@ class C19(core.Check):
         if kind == "revolved":
             x0 = round(rng.uniform(1.0, 2.0), 2)
             case["p1"] = [x0, round(rng.uniform(-1, 1), 2)]
-            case["angle"] = round(rng.uniform(0.4, 1.5), 3)
+            r = rng.random()
+            if r < 0.45:
+                case["angle"] = round(rng.uniform(0.4, 1.5), 3)
+            elif r < 0.65:
+                case["angle"] = -round(rng.uniform(0.4, 1.5), 3)  # revolved the other way
+            else:
+                # a full turn (the last tier ends where the first one starts), either way
+                case["angle"] = 2 * math.pi * (1 if r < 0.85 else -1)
+                case["nz"] = nz = max(nz, 3)
         else:
             case["p1"] = [round(rng.uniform(-1, 1), 2), round(rng.uniform(-1, 1), 2)]
         case["p2"] = [case["p1"][0] + round(rng.uniform(0.2, 0.5), 2) * nx, case["p1"][1] + round(rng.uniform(0.25, 0.6), 2) * ny]
@@ -234,6 +246,10 @@ class C19(core.Check):
             case["shift"] = [n[d] * h + 0.05 * ((d + 1) % 3) for d in range(3)]
             case["twist"] = round(rng.uniform(-0.3, 0.3), 3)
         case["delete"] = [rng.randrange(nx), rng.randrange(ny), rng.randrange(nz)]
+        if nx * ny * nz <= 12 and rng.random() < 0.4:
+            # the mesh also holds a translated copy of the stack (deep copies of the operations)
+            case["copy"] = [30.0 + rng.randrange(5), -20.0, 10.0 + rng.randrange(3)]
+            case["delete_in"] = rng.choice(["orig", "copy"])
         return case
 
     def gen_cases(self, rng: random.Random, tier: str) -> List[dict]:
@@ -251,6 +267,18 @@ class C19(core.Check):
                     for ny in range(1, 6):
                         for nz in range(1, 5):
                             cases.append(self._stack_case(rng, nx, ny, nz, kind))
+        for n in range(9 if tier == "quick" else 60):
+            shape = ["RevolvedRing", "ExtrudedRing", "Cylinder"][n % 3]
+            cases.append(
+                {
+                    "kind": "ringdel",
+                    "shape": shape,
+                    "n": rng.choice([4, 5, 8, 12]),
+                    "s": rng.randrange(12),
+                    "placement": self._placement(rng),
+                    "radius": round(rng.uniform(0.5, 2.0), 2),
+                }
+            )
         reps = 2 if tier == "quick" else 12
         for _ in range(reps):
             for name in SKETCHES:
@@ -272,7 +300,64 @@ class C19(core.Check):
         warnings.simplefilter("ignore")
         if case["kind"] == "stack":
             return self._run_stack(case)
+        if case["kind"] == "ringdel":
+            return self._run_ringdel(case)
         return self._run_round(case)
+
+    def _run_ringdel(self, case: dict) -> Any:
+        """delete one addressed operation of a ring / cylinder (ring segments are rotated copies of one operation)"""
+        import numpy as np
+
+        import classy_blocks as cb
+
+        pl = case["placement"]
+        R, n = case["radius"], case["n"]
+        P = lambda p: place([R * x for x in p], pl)
+        if case["shape"] == "RevolvedRing":
+            face = cb.Face([P([0, 1, 0]), P([1, 1, 0]), P([1, 2, 0]), P([0, 2, 0])])
+            shape = cb.RevolvedRing(P([0, 0, 0]), P([1, 0, 0]), face, n)
+        elif case["shape"] == "ExtrudedRing":
+            shape = cb.ExtrudedRing(P([0, 0, 0]), P([0, 0, 1.5]), P([1, 0, 0]), 0.5 * R, n)
+        else:
+            shape = cb.Cylinder(P([0, 0, 0]), P([0, 0, 1.5]), P([1, 0, 0]))
+        ops = list(shape.operations)
+        centres = [[float(x) for x in op.center] for op in ops]
+        for op in ops:
+            for axis in range(3):
+                op.chop(axis, count=2)
+        mesh = cb.Mesh()
+        mesh.add(shape)
+        addressed = shape.shell[case["s"] % len(shape.shell)]
+        s_index = [i for i, op in enumerate(ops) if op is addressed][0]
+        mesh.delete(addressed)
+
+        def block_centres() -> Any:
+            fd, path = tempfile.mkstemp(prefix="cbv-c19-")
+            os.close(fd)
+            try:
+                mesh.write(path)
+                text = open(path, encoding="utf-8").read()
+            finally:
+                os.unlink(path)
+            verts = [[float(x) for x in m.groups()] for m in re.finditer(r"^\t\((\S+) (\S+) (\S+)\) // \d+$", text, re.M)]
+            out = []
+            for m in re.finditer(r"^\thex \( ([\d ]+) \)", text, re.M):
+                c = np.mean([verts[int(v)] for v in m.group(1).split()], axis=0).tolist()
+                d = [dist(c, q) for q in centres]
+                out.append(d.index(min(d)) if min(d) < 1e-5 * max(1.0, R) else -1)
+            return out
+
+        res = []
+        try:
+            res.append(block_centres())
+            mesh.backport()
+            res.append(block_centres())
+            mesh.clear()
+            mesh.assemble()
+            res.append(block_centres())
+        except Exception as e:
+            res.append(type(e).__name__)
+        return {"n_ops": len(ops), "deleted": s_index, "blocks": res}
 
     def _run_stack(self, case: dict) -> Any:
         import numpy as np
@@ -291,7 +376,10 @@ class C19(core.Check):
             for row in shape_grid:
                 r2 = []
                 for op in row:
-                    l = lab(nearest(op.bottom_face.center.tolist(), centres, tol), nearest(op.top_face.center.tolist(), centres, tol))
+                    l = lab(
+                        nearest(op.bottom_face.center.tolist(), centres, tol, range(nz)),
+                        nearest(op.top_face.center.tolist(), centres, tol, range(1, nz + 1)),
+                    )
                     labels[id(op)] = l
                     r2.append(l)
                 g2.append(r2)
@@ -321,35 +409,63 @@ class C19(core.Check):
                     op.chop(0, count=2 + ii)
                     op.chop(1, count=7 + jj)
                     op.chop(2, count=13 + kk)
+        # optionally a translated copy of the whole stack in the same mesh (its operations are deep copies)
+        shift = case.get("copy")
+        other = stack.copy().translate(shift) if shift else None
         mesh = cb.Mesh()
         mesh.add(stack)
-        try:
-            mesh.delete(stack.grid[k][j][i])
-            fd, path = tempfile.mkstemp(prefix="cbv-c19-")
-            os.close(fd)
-            try:
-                mesh.write(path)
-                text = open(path, encoding="utf-8").read()
-            finally:
-                os.unlink(path)
+        if other is not None:
+            mesh.add(other)
+        centres_c = {key: [c[d] + shift[d] for d in range(3)] for key, c in centres.items()} if shift else {}
+
+        def blocks_of(text: str):
             verts = [
                 [float(x) for x in m.groups()]
                 for m in re.finditer(r"^\t\((\S+) (\S+) (\S+)\) // \d+$", text, re.M)
             ]
-            deleted = []
-            attrs = []
+            labels_, attrs_ = [], []
             for m in re.finditer(r"^\thex \( ([\d ]+) \) (\S*) \( ([\d ]+) \)", text, re.M):
                 vi = [int(x) for x in m.group(1).split()]
                 b = np.mean([verts[v] for v in vi[:4]], axis=0).tolist()
                 t = np.mean([verts[v] for v in vi[4:]], axis=0).tolist()
-                deleted.append(lab(nearest(b, centres, 1e-5), nearest(t, centres, 1e-5)))
-                attrs.append([deleted[-1], m.group(2), [int(x) for x in m.group(3).split()]])
+                kb, kt = nearest(b, centres, 1e-5, range(nz)), nearest(t, centres, 1e-5, range(1, nz + 1))
+                prefix = ""
+                if (kb is None or kt is None) and shift:
+                    kb, kt = nearest(b, centres_c, 1e-5, range(nz)), nearest(t, centres_c, 1e-5, range(1, nz + 1))
+                    prefix = "c:"
+                labels_.append(prefix + lab(kb, kt))
+                attrs_.append([labels_[-1], m.group(2), [int(x) for x in m.group(3).split()]])
+            return labels_, attrs_
+
+        def write_text() -> str:
+            fd, path = tempfile.mkstemp(prefix="cbv-c19-")
+            os.close(fd)
+            try:
+                mesh.write(path)
+                return open(path, encoding="utf-8").read()
+            finally:
+                os.unlink(path)
+
+        round_trips: List[Any] = []
+        try:
+            target = (other if (other is not None and case.get("delete_in") == "copy") else stack).grid[k][j][i]
+            mesh.delete(target)
+            deleted, attrs = blocks_of(write_text())
+            # the deletion must survive backport() and clear() + assemble()
+            try:
+                mesh.backport()
+                round_trips.append(blocks_of(write_text())[0])
+                mesh.clear()
+                mesh.assemble()
+                round_trips.append(blocks_of(write_text())[0])
+            except Exception as e:
+                round_trips.append(type(e).__name__)
         except Exception as e:
             deleted = type(e).__name__
-            if nx * ny * nz == 1 and deleted == "RuntimeError":
+            if nx * ny * nz == 1 and deleted == "RuntimeError" and other is None:
                 deleted = []  # the only operation is deleted: nothing is left to assemble, write() refuses
         return {"dims_ok": dims_ok, "grid": grid, "ops": ops, "slices": slices, "deleted": deleted,
-                "deleted_attrs": attrs if isinstance(deleted, list) and deleted else []}
+                "deleted_attrs": attrs if isinstance(deleted, list) and deleted else [], "round_trips": round_trips}
 
     def _run_round(self, case: dict) -> Any:
         import numpy as np
@@ -399,6 +515,8 @@ class C19(core.Check):
                 i, j, k = case["delete"]
                 reqs.append(f"c19.delete {n} {i} {j} {k}")
             return reqs
+        if case["kind"] == "ringdel":
+            return []  # oracle only (identity of operations: T_C19_delete / T_C19_delete_copy)
         name = table_name(case["name"])
         if name is None:
             return []
@@ -420,10 +538,21 @@ class C19(core.Check):
                 want = show(want) if isinstance(want, list) else want
                 if ans != want:
                     return f"get_slice({key}): implementation {want[:400]} / model {ans[:400]}"
+            if case["delete"] is None:
+                return None
             want = impl["deleted"]
             want = show(want) if isinstance(want, list) else want
-            if case["delete"] is not None and model[-1] != want:
-                return f"blocks after delete {case['delete']}: implementation {want[:400]} / model {model[-1][:400]}"
+            expect = model[-1]
+            if case.get("copy") and expect.startswith("["):
+                # a stack and its translated copy: the model's filtered list for the one, all operations for the other
+                left = [x for x in expect[1:-1].split(",") if x]
+                everything = [x for x in model[1][1:-1].split(",") if x]
+                if case.get("delete_in") == "copy":
+                    expect = show(everything + ["c:" + x for x in left])
+                else:
+                    expect = show(left + ["c:" + x for x in everything])
+            if expect != want:
+                return f"blocks after delete {case['delete']}: implementation {want[:400]} / model {expect[:400]}"
             return None
         ans = model[0]
         if ans == "bad-op":
@@ -490,7 +619,7 @@ class C19(core.Check):
             i, j, k = case["delete"]
             gone = f"{i}.{j}.{k}~{i}.{j}.{k + 1}"
             for label, zone, counts in impl.get("deleted_attrs", []):
-                m = re.fullmatch(r"(\d+)\.(\d+)\.(\d+)~.*", label)
+                m = re.fullmatch(r"(?:c:)?(\d+)\.(\d+)\.(\d+)~.*", label)
                 if not m:
                     continue
                 ii, jj, kk = (int(x) for x in m.groups())
@@ -506,14 +635,58 @@ class C19(core.Check):
                     )
                     break
             left = impl["deleted"]
-            if not isinstance(left, list) or sorted(left) != sorted(o for o in allops if o != gone):
+            expected = [o for o in allops if o != gone]
+            where = "grid"
+            if case.get("copy"):
+                if case.get("delete_in") == "copy":
+                    expected = allops + ["c:" + o for o in expected]
+                    where = "copy.grid"
+                else:
+                    expected = expected + ["c:" + o for o in allops]
+            if not isinstance(left, list) or sorted(left) != sorted(expected):
+                site = "Mesh.delete:stack-operation:wrong-blocks-left"
+                if case.get("copy") and isinstance(left, list) and len(left) < len(expected):
+                    site = "Mesh.delete:stack-operation:copy-sibling-deleted-too"
                 out.append(
                     {
-                        "site": "Mesh.delete:stack-operation:wrong-blocks-left",
-                        "what": f"delete(grid[{k}][{j}][{i}]) leaves {impl['deleted']}",
-                        "expected": [o for o in allops if o != gone],
+                        "site": site,
+                        "what": f"delete({where}[{k}][{j}][{i}]) leaves {impl['deleted']}",
+                        "expected": expected,
                     }
                 )
+            for how, got in zip(("backport", "clear-assemble"), impl.get("round_trips", [])):
+                if not isinstance(got, list) or sorted(got) != sorted(expected):
+                    out.append(
+                        {
+                            "site": f"Mesh.delete:stack-operation:blocks-differ-after-{how}",
+                            "what": f"delete({where}[{k}][{j}][{i}]), write, {how}, write: blocks {got}",
+                            "observed": got,
+                            "expected": expected,
+                        }
+                    )
+                    break
+            if isinstance(impl.get("round_trips"), list) and len(impl["round_trips"]) == 1 and isinstance(impl["round_trips"][0], str) and expected:
+                out.append({"site": "Mesh.delete:stack-operation:round-trip-raises", "what": impl["round_trips"][0]})
+            return out
+        if case["kind"] == "ringdel":
+            expected = [i for i in range(impl["n_ops"]) if i != impl["deleted"]]
+            for how, got in zip(("delete", "backport", "clear-assemble"), impl["blocks"]):
+                if not isinstance(got, list) or sorted(got) != expected:
+                    site = f"Mesh.delete:{case['shape']}.shell:wrong-blocks-after-{how}"
+                    if isinstance(got, list) and len(got) < len(expected) and how == "delete":
+                        site = f"Mesh.delete:{case['shape']}.shell:copy-sibling-deleted-too"
+                    out.append(
+                        {
+                            "site": site,
+                            "what": f"{case['shape']} of {impl['n_ops']} operations, shell[{case['s']}] (operation {impl['deleted']}) deleted: "
+                            f"blocks at the places of operations {got}",
+                            "observed": got,
+                            "expected": expected,
+                        }
+                    )
+                    break
+            if len(impl["blocks"]) < 3 and not out:
+                out.append({"site": f"Mesh.delete:{case['shape']}.shell:round-trip-raises", "what": str(impl["blocks"][-1])})
             return out
         # round: shell = the cells with a point on the outer surface; core and shell partition all cells
         n = len(impl["cells"])
@@ -545,6 +718,8 @@ class C19(core.Check):
         return json.dumps(case, sort_keys=True)
 
     def classify(self, case, impl):
+        if case["kind"] == "ringdel":
+            return f"ringdel:{case['shape']}"
         if case["kind"] == "stack":
             return f"stack:{case['stack']}:{case['nx']}x{case['ny']}x{case['nz']}"
         return f"{case['kind']}:{case['name']}"
